@@ -2,6 +2,7 @@ package nfa
 
 import (
 	"regexp/syntax"
+	"unicode/utf8"
 )
 
 // FirstByteSet represents the set of bytes that can start a match.
@@ -77,22 +78,40 @@ func extractFirstBytesRecursive(re *syntax.Regexp, result *FirstByteSet, depth i
 			return false // Empty literal matches empty string
 		}
 		r := re.Rune[0]
-		if r > 255 {
-			return false // Non-ASCII, too complex
+		if re.Flags&syntax.FoldCase != 0 {
+			// Case-insensitive literal: other case variants may start the match
+			// (including non-ASCII ones such as U+212A for 'k'). Bail out.
+			return false
 		}
-		result.bytes[byte(r)] = true
-		result.count++
+		// The first byte of the match is the first byte of the UTF-8 encoding of r,
+		// not byte(r): U+00E9 is encoded as C3 A9, not as E9.
+		var buf [utf8.UTFMax]byte
+		utf8.EncodeRune(buf[:], r)
+		if !result.bytes[buf[0]] {
+			result.bytes[buf[0]] = true
+			result.count++
+		}
 		return true
 
 	case syntax.OpCharClass:
 		// Character class: add all bytes in the class
 		for i := 0; i < len(re.Rune); i += 2 {
 			lo, hi := re.Rune[i], re.Rune[i+1]
-			if hi > 255 {
-				hi = 255 // Truncate to ASCII
-			}
-			if lo > 255 {
-				continue // Skip non-ASCII ranges
+			if hi >= utf8.RuneSelf {
+				// The range contains non-ASCII runes: a match may start with any
+				// UTF-8 lead byte. Dropping them would make the set incomplete and
+				// the prefilter would reject valid matches, so over-approximate with
+				// every byte >= 0x80 and keep the ASCII part of the range.
+				for b := utf8.RuneSelf; b < 256; b++ {
+					if !result.bytes[b] {
+						result.bytes[b] = true
+						result.count++
+					}
+				}
+				if lo >= utf8.RuneSelf {
+					continue
+				}
+				hi = utf8.RuneSelf - 1
 			}
 			for r := lo; r <= hi; r++ {
 				if !result.bytes[byte(r)] {
